@@ -30,6 +30,7 @@ pub fn clock_install(expire_at: Option<u64>) {
 /// Removes the virtual clock from this thread and returns the probe count.
 pub fn clock_remove() -> u64 {
     CLOCK_ON.with(|c| c.set(false));
+    EXPIRED.with(|c| c.set(false));
     PROBES.with(|c| c.get())
 }
 
